@@ -705,6 +705,8 @@ func redactScalarValue(keyPath []string, v interface{}, isSearchStage bool, isSe
 			return RedactedBoolean
 		}
 		return v
+	case nil:
+		return v
 	default:
 		return redactedString
 	}
